@@ -107,13 +107,20 @@ def do_op(td: Path, op: tuple, probe: bool = False):
     if kind == "chdir":
         os.chdir(td / op[1])
         return None
+    if kind == "touch":
+        # the files' time stamps are not part of their contents: move them (far past, future, all different)
+        for i, nm in enumerate(sorted(FILES)):
+            t = {"past": 86400 + i, "future": 4102444800 + i, "same": 1700000000}[op[1]]
+            os.utime(proj / nm, (t, t))
+        return None
     raise ValueError(kind)
 
 
 D1 = {"k": "a b", "n": {"p": [1, 2, "x y"], "q": None}, "z": 1.5}
 PREFIX_OPS = [("read", ("a.dict", "abs"), {}), ("read", ("a.dict", "rel"), {"order": True}), ("read", ("b.dict", "abs"), {"comments": False}),
               ("read", ("c.json", "rel"), {}), ("write", "w1", "w", D1, "abs"), ("write", "w1", "a", {"extra": "it's"}, "rel"),
-              ("parse", ("b.dict", "abs"), {}), ("load", ("a.dict", "abs")), ("dump", "d1", D1), ("reset",), ("chdir", "proj/sub"), ("chdir", "elsewhere")]
+              ("parse", ("b.dict", "abs"), {}), ("load", ("a.dict", "abs")), ("dump", "d1", D1), ("reset",), ("chdir", "proj/sub"), ("chdir", "elsewhere"),
+              ("touch", "past"), ("touch", "future"), ("touch", "same")]
 PROBES = [("read", ("a.dict", "abs"), {}), ("read", ("a.dict", "rel"), {"comments": False}), ("read", ("a.dict", "abs"), {"order": True}),
           ("read", ("c.json", "abs"), {}), ("write", "probe", "w", D1, "rel"), ("parse", ("a.dict", "rel"), {}), ("parse", ("a.dict", "abs"), {"order": True, "output": "json"}),
           ("load", ("a.dict", "rel")), ("dump", "pd", D1),
